@@ -207,18 +207,20 @@ var plans = map[string]Plan{
 	},
 	"C16": {
 		Level: "fault_enumeration",
-		Rule: "cases are script sets for 1-3 scripted fake plugins (own framing / envelopes via internal/refcodec) run by the real thriftrw binary: per protocol step (handshake, generate, goodbye) x fault kind (ok, wrong name, wrong API version, feature missing, missing field, exception envelope, wrong envelope type, garbage frame, raw garbage, truncation at every byte offset of the reply frame, oversized length prefix, exit before read / after read / after reply) x write mode (whole, bytewise, drawn segments with pauses) x advertised feature list of a conforming handshake ([SERVICE_GENERATOR], empty, only values the host does not know such as [2] / [0] / [7,9], those next to SERVICE_GENERATOR, repetitions) x exit status x linger. Complete grids: truncation (210), fault (162), pairs (2916, thorough); random scripts; the public plugin.Main driven over a segmented byte stream. " +
-			"Oracle (history checking): each plugin's event trace is accepted by the protocol automaton; generate only after a conforming handshake whose feature list contains SERVICE_GENERATOR; exactly one goodbye to every conforming plugin still reading; every started plugin saw EOF and exited before the host; host exit status != 0 iff some plugin failed, and then stderr names it. " +
+		Rule: "cases are script sets for 1-3 scripted fake plugins (own framing / envelopes via internal/refcodec) run by the real thriftrw binary: per protocol step (handshake, generate, goodbye) x fault kind (ok, wrong name, wrong API version, feature missing, missing field, exception envelope, wrong envelope type, garbage frame, raw garbage, truncation at every byte offset of the reply frame, oversized length prefix, exit before read / after read / after reply, a flood of junk instead of the reply) x flood modifier (a complete reply followed by 1 B .. 1 MiB of junk in one write - below and above the 64 KiB pipe buffer, four patterns - then exit) x write mode (whole, bytewise, drawn segments with pauses) x advertised feature list of a conforming handshake ([SERVICE_GENERATOR], empty, only values the host does not know such as [2] / [0] / [7,9], those next to SERVICE_GENERATOR, repetitions) x exit status x linger x the rest of the command line (plain; valid --output-file; generator flags; runs failing for reasons of their own: --output-file without .go, no / two / missing input files, unknown flag, input that does not compile, thrift root that is no ancestor, no package prefix, plugin not on the PATH, --version, --help, input that does not generate, unwritable --out; before or after the --plugin flags). Complete grids: truncation (210), fault (198), command line (270), pairs (4356, thorough); random scripts; the public plugin.Main driven over a segmented byte stream. " +
+			"Oracle (history checking): each plugin's event trace is accepted by the protocol automaton; generate only after a conforming handshake whose feature list contains SERVICE_GENERATOR; exactly one goodbye to every conforming plugin still reading; every started plugin saw EOF (or was released from a blocked write by the host closing its pipe) and exited before the host; the host terminates; host exit status != 0 iff some plugin failed, and then stderr names it (the exit status is not judged when the command line itself makes the run fail; the life-cycle clauses are). " +
 			"Non-trivial: >=1 deviation or >=2 plugins. Distinct: SHA-256 of the script set.",
 		Assumptions: []string{
 			"which fault kinds make a plugin 'failed' is fixed by harness/fplab.IsFailure (everything except ok, feature-missing, segmented writes, linger, exit-after-goodbye-reply)",
 			"a handshake advertising unknown feature values (alone or next to SERVICE_GENERATOR) is a conforming handshake, not a failure; only the 'only after' direction of the gate is asserted (whether generate is sent to an advertising plugin is C17's business)",
-			"one O_APPEND event log gives the global order of plugin events and the host-exit marker; 60 s ceiling (x2) for hangs",
+			"one O_APPEND event log gives the global order of plugin events and the host-exit marker; 60 s ceiling (x2) for hangs, cut short when from 10 s on every thread of the host's process group sleeps for 5 s without CPU time or new events (blocked for good)",
+			"junk on stdout where a reply is due (handshake, generate, instead of goodbye) makes the plugin a failed plugin; junk after a conforming goodbye reply is left open by the statement: either exit status is accepted, termination and reaping are still required",
 		},
 		Prebuild: []Prebuild{{Name: "thriftrw", Pkg: "go.uber.org/thriftrw"}, {Name: "fakeplugin", Pkg: "verif/harness/fakeplugin"}, {Name: "libplugin", Pkg: "verif/harness/libplugin"}},
 		Units: []Unit{
 			{Name: "truncation-grid", Pkg: "./checks/c16", Run: "^TestTruncationGrid$", Shards: [2]int{2, 2}},
 			{Name: "fault-grid", Pkg: "./checks/c16", Run: "^TestFaultGrid$", Shards: [2]int{2, 2}},
+			{Name: "cli-grid", Pkg: "./checks/c16", Run: "^TestCLIGrid$", Shards: [2]int{1, 1}},
 			{Name: "pair-grid", Pkg: "./checks/c16", Run: "^TestPairGrid$", Shards: [2]int{0, 8}},
 			{Name: "random", Pkg: "./checks/c16", Run: "^TestRandomScripts$", Rapid: true, Shards: [2]int{10, 16}, Checks: [2]int{40, 250}},
 			{Name: "lib", Pkg: "./checks/c16", Run: "^TestLibPlugin$", Rapid: true, Shards: [2]int{2, 4}, Checks: [2]int{150, 2000}},
